@@ -1,6 +1,8 @@
 import ConfModel.Driver.Common
 import ConfModel.Driver.OSCmd
 import ConfModel.Model.Run
+import ConfModel.Model.ClientPipe
+import ConfModel.Spec.ClientRunner
 import ConfModel.Spec.Glob
 namespace ConfModel.Driver.C05
 open Lean ConfModel.Driver ConfModel.Run ConfModel.Trie ConfModel.Glob
@@ -75,9 +77,96 @@ def judgeHandshake (inp impl : Json) : Verdict :=
       s!"{kind} server reading its request '{str (field inp "read")}': handed to the client {handed.length} of {n} permutations (each exactly once: {allHanded}), " ++
       s!"host/port filled in {addrOK}, request seen by the server as sent {seenOK}, outcomes {outs}, hang {hang}, server still alive after the batch {alive}" }
 
+/-- op "shared": several batches of the real `runTestCasesForServer` side by side on ONE real client
+runner; the client holds back its reading until every batch has a sender inside `sendRequest`, then
+its output ends in one of the ways it can end, while it goes on reading (drain) or not.  C05: every
+batch returns with its server stopped ("every started server is stopped, and the run terminates"),
+every permutation has exactly one outcome and was handed to the client at most once — exactly once,
+answered, when the client does not fail — with the address of its own batch's server; a request the
+runner accepted gets its callback exactly once.  The model: the scenario's canonical schedule on the
+client-runner transition system (`ClientRunner.step`, the system `batch_wait_released` is about)
+ends in a terminal state in which the WaitGroup of every batch is released. -/
+def judgeShared (inp impl : Json) : Verdict :=
+  open ConfModel.ClientRunner in
+  if !(isNull (field impl "panic")) then
+    { agree := false, holds := false, why := "panic: " ++ str (field impl "panic") } else
+  if !(bool (field impl "valid")) then { agree := true, holds := true, nontrivial := false, cls := "invalid-input" } else
+  let sizes := natList (field inp "batches")
+  let after := nat (field inp "after")
+  let fail := str (field inp "fail")
+  let thenK := str (field inp "then")
+  -- global request ids, batch by batch
+  let offs : List Nat := (sizes.foldl (fun (acc : List Nat × Nat) n => (acc.1 ++ [acc.2], acc.2 + n)) ([], 0)).1
+  let batchIds : List (List Nat) := (sizes.zip offs).map (fun (n, o) => (List.range n).map (· + o))
+  let total := sizes.foldl (· + ·) 0
+  let allIds := List.range total
+  -- ---- the model: canonical schedule ----
+  let serve (g : Nat) : List Event := [.sStart g, .sLock g, .sRegister g, .sWriteOk g, .rRecv g, .rLookup, .rFire]
+  let phase1 := (allIds.take after).flatMap serve
+  -- the next request of every batch that has one left
+  let nexts : List Nat := batchIds.filterMap (fun ids => ids.find? (fun g => g ≥ after))
+  let a := nexts.head?
+  let queued := nexts.drop 1
+  let phase2 : List Event := (match a with | some g => [Event.sStart g, .sLock g, .sRegister g] | none => []) ++ queued.map Event.sStart
+  let others := allIds.filter (fun g => g ≥ after && !nexts.contains g)
+  let isExit := fail == "exit0" || fail == "exit1"
+  let phase3 : List Event := match fail with
+    | "unknown" => [.rRecv 999999, .rLookup, .rSetErr, .rTerminate, .rAbort]
+    | "dup" => [.rRecv (after - 1), .rLookup, .rSetErr, .rTerminate, .rAbort]
+    | "over" | "garbage" => [.rRecvBad, .rSetErr, .rTerminate, .rAbort]
+    | "exit0" => [.pExit 0]
+    | "exit1" => [.pExit 1]
+    | _ => []
+  let phase4 : List Event :=
+    if fail == "none" then
+      (match a with | some g => [Event.sWriteOk g, .rRecv g, .rLookup, .rFire] | none => []) ++
+      queued.flatMap (fun g => [Event.sLock g, .sRegister g, .sWriteOk g, .rRecv g, .rLookup, .rFire]) ++ others.flatMap serve ++
+      [.uCloseSend, .pExit 0, .rRecvEOF, .rCloseSend, .rDrain, .rDone, .pHook]
+    else if !isExit && thenK == "drain" then
+      (match a with | some g => [Event.sWriteOk g] | none => []) ++ queued.flatMap (fun g => [Event.sLock g, .sRegister g, .sWriteOk g]) ++
+      others.map Event.sStart ++ [.rCloseSend, .rDrain, .rDone, .pExit 0, .pHook]
+    else
+      (if isExit then [] else [Event.pExit 1]) ++
+      (match a with | some g => [Event.sWriteFail g, .sSetErr g] | none => []) ++
+      queued.flatMap (fun g => [Event.sLock g, .sRegister g, .sWriteFail g, .sSetErr g]) ++
+      [.rRecvEOF, .rCloseSend, .rDrain, .rDone, .pHook]
+  let m := ClientRunner.run (fun g => g) ClientRunner.init (phase1 ++ phase2 ++ phase3 ++ phase4)
+  let mTerminal := m.rpc == .done && allIds.all (fun g => match m.spc g with | .idle => true | .ret _ => true | _ => false)
+  let mReleased := batchIds.all (fun ids => batchWaitPasses m ids)
+  -- ---- the implementation's observation ----
+  let names := (arr (field impl "names")).map strList
+  let handed := strList (field impl "handed")
+  let outs := (arr (field impl "outcomes")).map (fun b => (arr b).map strList)
+  let rets := (arr (field impl "rets")).map strList
+  let cbs := (arr (field impl "cbs")).map natList
+  let hang := natList (field impl "hang")
+  let srvAlive := natList (field impl "srvAlive")
+  let wait := str (field impl "wait")
+  let allNames := sortStrings (names.flatMap id)
+  let oneOutcome := (names.zip outs).all (fun (ns, os) => sortStrings ns == os.map (fun o => o.headD ""))
+  let atMostOnce := dedupSorted handed == handed && handed.all (allNames.contains ·)
+  let cbOnce := (rets.zip cbs).all (fun (rs, cs) => rs.length == cs.length && (rs.zip cs).all (fun (r, c) => if r == "ok" then c == 1 else c == 0))
+  let addrOK := bool (field impl "addrOK")
+  let clean := fail == "none"
+  let cleanOK := !clean || (handed == allNames && outs.all (fun os => os.all (fun o => (o.drop 1).headD "" == "pass")) && rets.all (fun rs => rs.all (· == "ok")))
+  let holds := hang.isEmpty && srvAlive.isEmpty && wait == "returned" && oneOutcome && atMostOnce && cbOnce && addrOK && cleanOK
+  { agree := (mTerminal && mReleased) == hang.isEmpty && oneOutcome && cbOnce, holds := holds,
+    nontrivial := sizes.length > 1, cls := "shared:" ++ fail ++ ":" ++ (if clean then "-" else thenK) ++ (if !(bool (field inp "stall")) then ":no-stall" else if bool (field impl "stalled") then "" else ":stall-missed"),
+    model := Json.mkObj [("terminal", mTerminal), ("released", mReleased)],
+    why := if holds then "" else
+      (if !hang.isEmpty then s!"batch(es) {hang} sharing the client with {sizes.length - 1} other(s) never returned (their server is not stopped, the run does not terminate): sendRequest results {rets}, completion callbacks {cbs}; " else "") ++
+      (if !srvAlive.isEmpty then s!"server of batch(es) {srvAlive} still running when the batch returned; " else "") ++
+      (if hang.isEmpty && wait != "returned" then "waitForResponses after the batches did not return; " else "") ++
+      (if !oneOutcome then s!"not exactly one outcome per permutation: {outs}; " else "") ++
+      (if !atMostOnce then s!"a permutation was handed to the client more than once (or one that is none): {handed}; " else "") ++
+      (if !cbOnce then s!"accepted request without exactly one completion callback (or refused one with a callback): {rets} / {cbs}; " else "") ++
+      (if !addrOK then "a request did not carry host/port of its own batch's server; " else "") ++
+      (if !cleanOK then s!"well-behaved client, yet not every permutation was handed out once and passed: handed {handed}, outcomes {outs}; " else "") }
+
 def handle : Handler := fun op inp impl =>
   match op with
   | "osserver" => ConfModel.Driver.OSCmd.judgeServer inp impl
+  | "shared" => judgeShared inp impl
   | "fill" =>
     -- every request handed to the client carries the test name in its request headers (and in the
     -- headers of its raw HTTP request, which is what goes on the wire), the server's host and port,
@@ -130,7 +219,9 @@ def handle : Handler := fun op inp impl =>
     let serverOK := beh == "ok" || beh == "" || beh == "eof"
     -- the client under test broke down mid-run (its own log says so): what it was handed before is
     -- judged, and what the runner does about its servers
-    let broke := bool (field impl "breakdown")
+    -- (a client of the kinds read* answers nothing at all, also before it dies — or when it never
+    -- gets to read the request it was to die on: it is a client that broke down from the start)
+    let broke := bool (field impl "breakdown") || (str (field inp "clientStopHow")).startsWith "read"
     -- (1) each selected permutation handed to the client exactly once (when servers start properly
     -- and the client lives; otherwise at most once, and nothing that was not selected)
     let once := if serverOK && !broke then sentNames == wantNames else sentNames.all (wantNames.contains ·) && (dedupSorted sentNames == sentNames)
@@ -172,7 +263,15 @@ def handle : Handler := fun op inp impl =>
     -- the model of the dispatching loop on a fair schedule (the client dying after the first round
     -- when it broke down): the closure returns, and with no server alive
     let final := execSys maxS (initSys pl.length) (fairSchedule pl.length (4 * pl.length + 4) (if broke then some 1 else none))
-    let dispAgree := maxS == 0 || (returned == (final.disp == .returned) && aliveAtRet.length == aliveCount final.threads)
+    -- … in which a batch thread gets from "server started" to "server ended": when the client under
+    -- test is a process that is gone (it exited or was killed while requests were still handed out),
+    -- a request written to it comes back (model of the stdin path, `ClientPipe`: the client dies
+    -- after the length prefix was taken, the goroutines run on)
+    let stopHow := str (field inp "clientStopHow")
+    let gone := stopHow.startsWith "exit" || stopHow.startsWith "read"
+    let afterExit := ClientPipe.run ClientPipe.code (ClientPipe.init ClientPipe.code 2) [.wHand, .pExit]
+    let pipeOK := !gone || ClientPipe.senderOut (ClientPipe.settle ClientPipe.code afterExit (ClientPipe.mu afterExit))
+    let dispAgree := maxS == 0 || (returned == (final.disp == .returned && pipeOK) && aliveAtRet.length == aliveCount final.threads)
     { agree := (if serverOK && !broke then sentNames == planNames else true) && batchesAgree && dispAgree && (selected.map (·.name) |>.map ("/".intercalate ·) |> sortStrings) == wantNames,
       holds := holds, nontrivial := reqs.length > 1 && wantNames.length < names.length || srvs.length > 1,
       cls := mode ++ ":" ++ beh ++ (if str (field inp "clientStopHow") != "" then ":client-" ++ str (field inp "clientStopHow") else ""),
